@@ -46,6 +46,18 @@ def build(tier, seed, pid):
             m = gl.conforming_metrics(t["crystal_system"], t["cell_choice"], rng, 1)[0]
             K, _ = gl.shell_for(m, 1500 if tier == "quick" else 3000, rng)
             inst.append({"t": i + 1, "met": m, "K": K, "Kmin": 0, "deep": 1})
+    # far shells: a slice a few per cent thick at a radius where indices reach 15..20 in every direction (the reflections a
+    # high-resolution data set adds last).  Anything that identifies a reflection by a short key - a weighted sum of its indices, a
+    # byte, a rounded sintl - first collides out here: 16 + 31.15 = -15 + 31.16
+    if pid == "C05":
+        far = [k_ for k_ in classes if not k_[1] and k_[0] in ("4/m", "-3", "6/m", "m-3", "mmm")]
+        for key in (far if tier == "thorough" else far[:3]):
+            i = classes[key][0]
+            t = tabs[i]
+            m = gl.conforming_metrics(t["crystal_system"], t["cell_choice"], rng, 1)[0]
+            # the shell around the reflection (16, 15, 0): Q* from 0.93 to 1.05 of its value
+            q0 = 256 * m[0] + 225 * m[1] + 480 * m[5]
+            inst.append({"t": i + 1, "met": m, "K": (q0 * 105) // 100, "Kmin": (q0 * 93) // 100, "far": 1})
     # needle cells: one reciprocal axis 130 times shorter than the others, so that only the 00l row lies in the shell and l runs to +-130
     # (a 300 A axis at ordinary resolution): indices beyond a signed byte
     # (their numbers do not fit TLC's 32-bit products; they are checked by needle_check below, where the allowed set is simply 00l)
@@ -167,7 +179,7 @@ def run(tier, seed):
         t = tabs[I["t"] - 1]
         c = 0.01 * rng.uniform(0.5, 2.0)
         cell = gl.cell_from_recip_metric(I["met"], c)
-        smin, smax = gl.bounds(I["K"], I["Kmin"], c, tight=0 if (I.get("pseudo") or I.get("long") or I.get("needle") or I.get("huge")) else i % 5)
+        smin, smax = gl.bounds(I["K"], I["Kmin"], c, tight=0 if (I.get("pseudo") or I.get("long") or I.get("needle") or I.get("huge") or I.get("far")) else i % 5)
         if I["Kmin"] == 0 and i % 3 == 0:
             smin = -0.1 * (i % 2)          # a lower bound of exactly 0 or below 0 means "no lower bound": 000 is never a reflection
         variants = [("tools", dict(sgno=t["no"], cell_choice=t["setting"]), rng.randrange(1 << 30)),
